@@ -150,6 +150,62 @@ def probe_default(ctx):
     return None
 
 
+def probe_nonvacuous(ctx):
+    """second clause for GIVEN supply rates (small or zero output block: passivity-like and mixed rates as well as gain
+    bounds): the data come from a system that satisfies the constraint STRICTLY with the storage matrix the iteration
+    starts from (checked numerically here, independently), so the first sub-problem has a strictly feasible point and a
+    completed fit must not return the all-zero Koopman matrix"""
+    rng = ctx.rng
+    snap = ctx.snap()
+    rs = np.random.RandomState(rng.randint(0, 2 ** 31 - 1))
+    for _ in range(50):
+        nx = rng.randint(1, 2)
+        nu = rng.choice([1, nx])
+        A = rs.uniform(-0.5, 0.5, (nx, nx))
+        A *= rng.choice([0.3, 0.5]) / max(0.2, np.max(np.abs(np.linalg.eigvals(A))))
+        B = rs.uniform(-0.3, 0.3, (nx, nu))
+        delta = rng.choice([0.0, 0.0, 0.05, 0.3])
+        nu_ = rng.choice([1.5, 2.0, 4.0])
+        kind = rng.choice(['passivity-like', 'mixed', 'small output block'])
+        S = np.zeros((nx, nu))
+        if kind == 'passivity-like' and nu == nx:
+            S = -0.5 * np.eye(nx)
+        elif kind == 'mixed':
+            S = rs.choice([0.3, -0.2, 0.1], size=(nx, nu))
+        Xi = np.block([[delta * np.eye(nx), S], [S.T, -nu_ * np.eye(nu)]])
+        M = np.block([[np.eye(nx) - Xi[:nx, :nx], -Xi[:nx, nx:], A.T],
+                      [-Xi[:nx, nx:].T, -Xi[nx:, nx:], B.T],
+                      [A, B, np.eye(nx)]])
+        if np.min(np.linalg.eigvalsh((M + M.T) / 2)) > 0.1:
+            break
+    else:
+        return None
+    blocks = []
+    for l in range(2):
+        n = 25
+        x = np.zeros((n, nx)); u = rs.uniform(-1, 1, (n, nu)); x[0] = rs.uniform(-1, 1, nx)
+        for k in range(n - 1):
+            x[k + 1] = A @ x[k] + B @ u[k] + 0.005 * rs.randn(nx)
+        blocks.append((l, np.hstack((x, u))))
+    from .. import structural as st
+    X = st.ref_combine(blocks, True)
+    reg = lmi.LmiEdmdDissipativityConstr(alpha=rng.choice([0, 0.1]), supply_rate=Xi, max_iter=rng.choice([1, 2]),
+                                         solver_params=dict(lc.SOLVER))
+    case = {'nx': nx, 'nu': nu, 'Xi': Xi.tolist(), 'kind': kind, 'A': A.tolist(), 'B': B.tolist(), 'X': X.tolist(),
+            'replay': {'rng': snap, 'probe': 'nonvacuous'}}
+    try:
+        reg.fit(X, n_inputs=nu, episode_feature=True)
+    except Exception:
+        return None
+    if not np.any(reg.coef_):
+        return ('LmiEdmdDissipativityConstr completed a fit and returned the all-zero Koopman matrix '
+                f'(stop_reason_: {reg.stop_reason_!r}) for a {kind} supply rate with output block {delta}*I, although the system '
+                'that generated the data satisfies the constraint strictly with the storage matrix the iteration starts from '
+                f'(min eigenvalue of the LMI {np.min(np.linalg.eigvalsh((M + M.T) / 2)):.3f})',
+                case, {'estimator': 'LmiEdmdDissipativityConstr', 'supply_rate': 'given', 'clause': 'non-vacuous'})
+    return None
+
+
 def run(ctx):
     ctx.rule = ('(i) the real _create_problem_a/_b of LmiEdmdDissipativityConstr (default and random symmetric supply '
                 'rates) evaluated with PICOS at dyadic points vs the Lean block over Q; (ii) scripted-solver loop '
@@ -197,6 +253,10 @@ def run(ctx):
             wantU = np.zeros_like(script.a[0][1]) if ui < 0 else script.a[ui][1]
             if not np.array_equal(reg.coef_.T, wantU):
                 ctx.mismatch('returned U', case, reg.coef_.T.tolist(), [ui])
+            wantP = np.eye(script.b[0][1].shape[0]) if pi < 0 else script.b[pi][1]
+            if not np.array_equal(np.asarray(reg.P_), wantP):
+                ctx.mismatch('returned P_ is not the P of the sub-problem-B answer the machine names (the identity before the '
+                             'first such answer)', case, np.asarray(reg.P_).tolist(), [pi, wantP.tolist()])
     ctx.attempt('scripted loop', _sec_scripted_loop)
     # (requested gain bound, plant gain, bound of an earlier fit of the same instance or None, data as integer counts)
     sweeps = [(1.1, 5.0, 8.0), (1.5, 4.0, 6.0), (1.5, 4.0, None, 'int'), (2.5, 6.0, None, 'int')]
@@ -213,6 +273,11 @@ def run(ctx):
     res = probe_default(ctx)
     if res:
         ctx.fail(*res)
+    for _ in range(ctx.n(8, 80)):
+        res = probe_nonvacuous(ctx)
+        ctx.count('non-vacuity probe (given supply rate)' + (': no admissible case' if res is None and False else ''))
+        if res:
+            ctx.fail(*res)
     # a broken proof / correspondence with no failing fit so far: a larger population of fits (same oracle)
     return ctx.finish('proof', lambda c: fits(80, True))
 
